@@ -7,4 +7,10 @@ import AmVerif.Props.C16
 import AmVerif.Props.C12
 import AmVerif.Props.C04
 import AmVerif.Props.C11
+import AmVerif.Props.C05
+import AmVerif.Props.C17
+import AmVerif.Props.C08
+import AmVerif.Props.C15
+import AmVerif.Props.C13
+import AmVerif.Props.C14
 import AmVerif.Props.C07
